@@ -5,6 +5,7 @@ import Marwood.Lemmas.TotalPrelude
 import Marwood.Lemmas.EqualTotal
 import Marwood.Lemmas.StackWFNoPanic
 import Marwood.Lemmas.NoPanicMain
+import Marwood.Lemmas.EnvInvDemo
 import Marwood.Proofs.C07
 import Marwood.Proofs.C11
 import Marwood.Proofs.C20
@@ -1454,5 +1455,155 @@ example : NPInv (sHalt 0) ∧ EnvSlots (sHalt 0) ∧ ExtNoPanic C13.failingExt :
   ⟨sHalt_npinv 0, sHalt_envSlots 0 (.inl rfl), failingExt_noPanic⟩
 
 end NoPanicMachine
+
+/-! ### T06.6 without `EnvSlots`: the slot clause is an invariant
+
+`Lemmas/EnvTaint*.lean`, `Lemmas/EnvFit*.lean`, `Lemmas/EnvInvStep.lean`, `Lemmas/EnvInvMain.lean`; executable form
+`Vm/EnvInvCheck.lean: stateEnvB` (evaluated on every real state by the stream `safe-side-conditions`, clauses `env-*`).
+
+`EnvInv s = TInv s ∧ FInv s`:
+
+* `FInv` ("fit") — every closure cell's environment has a slot for every entry of its lambda's environment map; every
+  adjacent `EnvironmentPointer(e), InstructionPointer(l, _)` pair of the live stack and of every continuation object's
+  stack copy fits (`e` covers `l`'s map), so does the `(ep, ip.0)` a continuation object saved, and the current
+  `(ep, ip.0)` outside a procedure prologue (in a prologue `acc` still holds the callee whose code runs); where a code
+  object has `MOVIMM <Ptr(p)> %acc; CLOSURE`, the `IofEnvironment` indices of the lambda in cell `p` are below the length
+  of that code object's own map.
+* `TInv` ("no value leads to a capturing lambda") — needed because the verifier does not know what `acc` holds at a
+  CLOSURE or a bare-lambda CALL: verified bytecode could store the pointer `MOVIMM` loaded in a global and close over
+  it, or call it bare, in a foreign environment (the model and `run_one` alike would then index out of the
+  environment). Compiled code never does: a pointer to a lambda with a non-empty environment map occurs only as the
+  immediate of `MOVIMM … %acc; CLOSURE` and, between those two instructions, in `acc`. That is the second invariant
+  (same traversal as "no value leads to entry code": stack, globals, environment slots, vectors, pairs, continuation
+  copies, immediates), with its own law for the unmodelled operations.
+
+Both are preserved by all 16 opcodes (apply / call/cc / eval re-dispatch, continuation invocation, both TCALL variants,
+VARARG included), by the collector (it moves nothing), by the epilogues and by `prepare_eval` — under `ExtEnvInv ext` /
+`CompEnvInv comp`, the law of the parameters of the model — and imply `EnvSlots` in every state satisfying the bundled
+invariant (`envSlots_of_envInv`). The four theorems below are the T06.6 theorems without `EnvSlots` / `EnvSlotsAlong`. -/
+
+section NoPanicMachineClosed
+open Marwood.Vm Marwood.Vm.Concrete Marwood.Lemmas.Sim Marwood.Lemmas.Good
+
+/-- **the slot clause follows from the invariant** -/
+theorem envSlots_of_envInv (ext : ExtOps) (ecl : ExtCodeLawsV ext) {s : St CHeap} (h : VmOkNP ext ecl s)
+    (e : EnvInv s) : EnvSlots s := Marwood.Lemmas.Good.envSlots_of_envInv h.1 e
+
+/-- **`EnvInv` is preserved by `run_one`** (all 16 opcodes of `step (concreteOps ext)`) -/
+theorem envInv_step (ext : ExtOps) (ecl : ExtCodeLawsV ext) (eg : ExtGood ext) (ee : ExtEnvInv ext)
+    {s s' : St CHeap} {b : Bool} (h : VmOkP ext ecl s) (e : EnvInv s) (hs : step (concreteOps ext) s = .ok (s', b))
+    (sm' : Small s'.heap) : EnvInv s' := Marwood.Lemmas.Good.envInv_step eg ee h e hs sm'
+
+/-- **… by the collector** -/
+theorem envInv_gc (ext : ExtOps) (ecl : ExtCodeLawsV ext) (force : Bool) {s : St CHeap} (h : VmOkP ext ecl s)
+    (e : EnvInv s) : EnvInv (cgc force s) := Marwood.Lemmas.Good.envInv_gc force h e
+
+/-- **… by the success epilogue** -/
+theorem envInv_onDone {s : St CHeap} (e : EnvInv s) : EnvInv (onDone s) := Marwood.Lemmas.Good.envInv_onDone e
+
+/-- **… by the error epilogue** -/
+theorem envInv_onError {s : St CHeap} (g : HG s.heap) (e : EnvInv s) : EnvInv (onError s) :=
+  Marwood.Lemmas.Good.envInv_onError g e
+
+/-- **… by `prepare_eval`**, under the compiler's law -/
+theorem envInv_prepare {comp : CHeap → Vm.VCell → Vm.Outcome (CHeap × Vm.VCell)} (ce : CompEnvInv comp) {s s' : St CHeap}
+    {d : Vm.VCell} (g : HG s.heap) (g' : HG s'.heap) (e : EnvInv s) (hacc : s.acc = .undefined)
+    (hst : ∀ c ∈ s.stack.cells, c = Vm.VCell.undefined) (hd : addrFree d = true)
+    (hp : prepareEval comp s d = .ok s') : EnvInv s' :=
+  Marwood.Lemmas.Good.envInv_prepare ce g g' e hacc hst hd hp
+
+/-- **T06.6, closed, no hypothesis about the state examined: `step` never panics on a state reachable from a good
+    initial state of the concrete machine** — except at the model's own fuel guard in `apply`. Hypotheses: the laws of
+    the unmodelled parts (`ExtLaws`, `ExtGood`, `ExtProc`, `ExtCodeLawsV` through `VmOkP`, `ExtNoPanic`, `ExtEnvInv`), the
+    invariants of the INITIAL state (`VmOkP`, `NPInv`, `EnvInv`), and the physical size bound. -/
+theorem step_never_panics_machine_closed (ext : ExtOps) (ecl : ExtCodeLawsV ext) (force : Bool) (el : ExtLaws ext)
+    (eg : ExtGood ext) (ep : ExtProc ext) (en : ExtNoPanic ext) (ee : ExtEnvInv ext) {s0 : St CHeap}
+    (h0 : VmOkP ext ecl s0) (n0 : NPInv s0) (e0 : EnvInv s0) (sb : SizeBounded (machine ext force) s0) {s : St CHeap}
+    (hr : Reaches (machine ext force) s0 s) (m : String)
+    (hp : step (concreteOps ext) s = .panic m) : m = "apply: list longer than fuel (cyclic list)" :=
+  step_never_panics_reachable_closed force el eg ep en ee ⟨h0, n0⟩ e0 sb hr m hp
+
+/-- **`run_count` never ends in a panic**: any budget, any number of instructions -/
+theorem run_never_panics_machine_closed (ext : ExtOps) (ecl : ExtCodeLawsV ext) (force : Bool) (el : ExtLaws ext)
+    (eg : ExtGood ext) (ep : ExtProc ext) (en : ExtNoPanic ext) (ee : ExtEnvInv ext) {s0 : St CHeap}
+    (h0 : VmOkP ext ecl s0) (n0 : NPInv s0) (e0 : EnvInv s0) (sb : SizeBounded (machine ext force) s0)
+    (count : Option Nat) (fuel c : Nat) {m : String} {sf : St CHeap}
+    (hr : runLoop (machine ext force) count fuel c s0 = .error (.panic m) sf) :
+    m = "apply: list longer than fuel (cyclic list)" :=
+  runLoop_never_panics_machine_closed force el eg ep en ee ⟨h0, n0⟩ e0 sb count fuel c hr
+
+/-- **one evaluation (`run_count` with its epilogues) never fails with a panic** -/
+theorem eval_never_panics_machine_closed (ext : ExtOps) (ecl : ExtCodeLawsV ext) (force : Bool) (el : ExtLaws ext)
+    (eg : ExtGood ext) (ep : ExtProc ext) (en : ExtNoPanic ext) (ee : ExtEnvInv ext) {s0 : St CHeap}
+    (h0 : VmOkP ext ecl s0) (n0 : NPInv s0) (e0 : EnvInv s0) (sb : SizeBounded (machine ext force) s0)
+    (count : Option Nat) (fuel : Nat) {m : String} {s1 : St CHeap}
+    (hr : runEval (concreteOps ext) (cgc force) count fuel s0 = .failed (.panic m) s1) :
+    m = "apply: list longer than fuel (cyclic list)" :=
+  runEval_never_panics_machine_closed force el eg ep en ee ⟨h0, n0⟩ e0 sb count fuel hr
+
+/-- every job of the history starts — `ip` pointed at its entry lambda — in a state satisfying the bundled invariant
+    and `EnvInv` (re-establishing both after `prepare_eval` is the compiler's law: `envInv_prepare`), within the size
+    bound. Nothing is asked along the runs. -/
+def HistGoodE (ext : ExtOps) (ecl : ExtCodeLawsV ext) (force : Bool) : List C07.Job → St CHeap → Prop
+  | [], _ => True
+  | j :: js, s =>
+    (VmOkP ext ecl (prepare s j.entry) ∧ SizeBounded (machine ext force) (prepare s j.entry) ∧
+      EnvInv (prepare s j.entry)) ∧
+    match runEval (concreteOps ext) (cgc force) none j.fuel (prepare s j.entry) with
+    | .value s' => HistGoodE ext ecl force js s'
+    | .failed _ s' => HistGoodE ext ecl force js s'
+    | .paused s' => HistGoodE ext ecl force js s'
+    | .fuel => HistGoodE ext ecl force js s
+
+/-- `HistGoodE` implies the hypothesis of `history_never_panics_machine`: the slot clause along every job's run is a
+    theorem (`NPInv` is carried from job to job) -/
+theorem histGood_of_histGoodE (ext : ExtOps) (ecl : ExtCodeLawsV ext) (force : Bool) (el : ExtLaws ext)
+    (eg : ExtGood ext) (ep : ExtProc ext) (en : ExtNoPanic ext) (ee : ExtEnvInv ext) :
+    ∀ (js : List C07.Job) (s : St CHeap), NPInv s → HistGoodE ext ecl force js s → HistGood ext ecl force js s := by
+  intro js
+  induction js with
+  | nil => intro s _ _; trivial
+  | cons j js ih =>
+    intro s n0 hg
+    obtain ⟨⟨hv, sb, e0⟩, hrest⟩ := hg
+    have n1 : NPInv (prepare s j.entry) := npinv_prepare_entry n0 j.entry
+    obtain ⟨k1, k2, k3⟩ := npinv_runEval force en n1 none j.fuel
+    refine ⟨⟨hv, sb, envSlotsAlong_of_envInv force el eg ep en ee ⟨hv, n1⟩ e0 sb⟩, ?_⟩
+    cases hr : runEval (concreteOps ext) (cgc force) none j.fuel (prepare s j.entry) with
+    | value s' => rw [hr] at hrest; exact ih s' (k1 s' hr) hrest
+    | failed f' s' => rw [hr] at hrest; exact ih s' (k2 f' s' hr) hrest
+    | paused s' => rw [hr] at hrest; exact ih s' (k3 s' hr) hrest
+    | fuel => rw [hr] at hrest; exact ih s n0 hrest
+
+/-- **no history of evaluations makes the modelled VM panic** — without `EnvSlotsAlong` -/
+theorem history_never_panics_machine_closed (ext : ExtOps) (ecl : ExtCodeLawsV ext) (force : Bool) (el : ExtLaws ext)
+    (eg : ExtGood ext) (ep : ExtProc ext) (en : ExtNoPanic ext) (ee : ExtEnvInv ext) :
+    ∀ (js : List C07.Job) (s : St CHeap), NPInv s → HistGoodE ext ecl force js s →
+      ∀ f ∈ histFaults ext force js s, ∀ m, f = Fault.panic m → m = "apply: list longer than fuel (cyclic list)" :=
+  fun js s n0 hg => history_never_panics_machine ext ecl force el eg ep en js s n0
+    (histGood_of_histGoodE ext ecl force el eg ep en ee js s n0 hg)
+
+/-! #### non-vacuity -/
+
+/-- the law of the unmodelled parts is satisfiable (the always-failing parameter set of C13) -/
+theorem failingExt_envInv : ExtEnvInv C13.failingExt where
+  taint := ⟨fun _ _ _ _ _ _ _ _ h => (by cases h), fun _ _ _ _ _ _ _ h => (by cases h),
+    fun _ _ _ _ _ _ _ _ h => (by cases h)⟩
+  fit := ⟨fun _ _ _ _ _ _ _ _ _ _ h => (by cases h), fun _ _ _ _ _ _ _ _ _ h => (by cases h),
+    fun _ _ _ _ _ _ _ _ _ _ h => (by cases h)⟩
+
+open Marwood.Lemmas.Good.Demo in
+/-- every hypothesis of `run_never_panics_machine_closed` holds of the demo machine -/
+example (count : Option Nat) (fuel c : Nat) (m : String) (sf : St CHeap)
+    (hr : runLoop (machine C13.failingExt false) count fuel c (sHalt 0) = .error (.panic m) sf) :
+    m = "apply: list longer than fuel (cyclic list)" :=
+  run_never_panics_machine_closed C13.failingExt C13.failingExt_codeLawsV false C13.failingExt_laws
+    C13.failingExt_good C13.failingExt_proc failingExt_noPanic failingExt_envInv (sHalt_vmOkP _ _) (sHalt_npinv 0)
+    (sHalt_envInv 0 (.inl rfl)) (sHalt_sizeBounded _) count fuel c hr
+
+end NoPanicMachineClosed
+
+/-- the list-builtin demo state (entry code, a top-level lambda, pairs, globals) satisfies the invariant too -/
+example : Marwood.Lemmas.Good.EnvInv Marwood.Lemmas.Good.LDemo.sDemo := Marwood.Lemmas.Good.LDemo.sDemo_envInv
 
 end Marwood.Proofs.C06
